@@ -204,6 +204,29 @@ func init() {
 			binders: "(isAdmin : List Char → Bool)",
 			paths:   map[string][2]string{"state.IsAdminUser(user)": {"(isAdmin user)", "bool"}},
 			retLean: "Bool"},
+		// C05: BootstrapOtpAuthHandler from the profile load to the cookie upgrade (block; the OTP hash comparison is external)
+		glTarget{pkg: "cmd/keymasterd", name: "bootstrapOtpCore", group: "Boot", natInts: true,
+			in: "BootstrapOtpAuthHandler", blockFrom: "profile, _, fromCache, err := state.LoadUserProfile(authData.Username)",
+			blockUpto: "returnAcceptType := getPreferredAcceptType(r)", blockReach: "KM.GoTypes.BootEffect.reached",
+			binders:   "(ext : KM.GoTypes.BootExt) (authData : KM.GoTypes.authInfo)",
+			traceLean: "KM.GoTypes.BootEffect",
+			ignore:    []string{"copy"},
+			paths: map[string][2]string{
+				"authData":                 {"authData", "authInfo"},
+				"len(requiredOtpHash) < 1": {"(ext.noHash requiredOtpHash)", "bool"},
+				"subtle.ConstantTimeCompare(inputOtpHash[:], requiredOtpHash) != 1": {"(!(ext.hashMatches requiredOtpHash))", "bool"},
+				"bootstrapOTPData{}":             {"(0 : Nat)", "bootstrapOTPData"},
+				"http.StatusInternalServerError": {"(500 : Nat)", "int"},
+				"http.StatusServiceUnavailable":  {"(503 : Nat)", "int"},
+				"http.StatusPreconditionFailed":  {"(412 : Nat)", "int"},
+				"http.StatusUnauthorized":        {"(401 : Nat)", "int"}},
+			externs: map[string]glExtern{
+				"state.LoadUserProfile":           {lean: "ext.loadProfile", ret: []string{"userProfile", "bool", "bool", "error"}},
+				"state.userBootstrapOtpHash":      {lean: "ext.storedHash", ret: []string{"hash"}},
+				"state.SaveUserProfile":           {lean: "ext.saveResult", ret: []string{"error"}, effect: "KM.GoTypes.BootEffect.saveProfile"},
+				"state.updateAuthCookieAuthlevel": {lean: "ext.upgradeResult", ret: []string{"string", "error"}, args: []int{2, 3}, effect: "KM.GoTypes.BootEffect.upgrade"},
+				"state.writeFailureResponse":      {lean: "()", ret: []string{}, args: []int{2}, effect: "KM.GoTypes.BootEffect.fail"}},
+			retLean: "Unit × List KM.GoTypes.BootEffect"},
 		// C09: unsealCA — the whole injection step under the mutex
 		glTarget{pkg: "cmd/keymasterd", name: "unsealCA", group: "Seal",
 			binders:   "(ext : KM.GoTypes.SealExt) (signerSet : Bool) (hasEdFile : Bool)",
